@@ -244,18 +244,12 @@ Definition zset_alg (inter : bool) (g : zagg) (now : Z) (keys : list bytes) : M 
     let rows := zq g (if inter then Some (zlen (dedup keys)) else None) now d keys in
     if has_nan rows then (d, Err (ESql SqScanNull)) else (d, Ok rows).
 
-Fixpoint zset_insert_all (kid : Z) (rows : list zrow) (n : Z) : M Z :=
+Fixpoint zset_add_all (kid : Z) (rows : list zrow) : M unit :=
   match rows with
-  | [] => ret n
+  | [] => ret tt
   | r :: rest =>
-      fun d =>
-        if negb (z_score r =? z_score r)%float then (d, Err (ESql (SqNotNull "rzset.score"))) else
-        if existsb (fun x => (z_kid x =? kid) && String.eqb (z_elem x) (z_elem r)) (rzset d)
-        then (d, Err (ESql (SqUnique "rzset.kid,rzset.elem")))
-        else
-          let d1 := upd_key_id kid (fun x => with_len x (opt_add (k_len x) 1)) d in
-          zset_insert_all kid rest (n + 1)
-            (set_rzset d1 (rzset d1 ++ [mkZ (next_zset_rid d1) kid (z_elem r) (norm_zero (z_score r))]))
+      zset_upsert kid (Some (z_elem r)) (z_score r) (fun _ new => new) ;;;
+      zset_add_all kid rest
   end.
 
 (* sqlDeleteAll1 / sqlDeleteAll2 *)
@@ -268,10 +262,11 @@ Definition zset_delete_key (now : Z) (key : bytes) : M unit :=
         (upd_key_id (k_id k) (fun r => with_len (with_mtime (with_ver r 0) 0) (Some 0)) d1, Ok tt)
     end.
 
-(* InterCmd.store / UnionCmd.store *)
+(* InterCmd.store / UnionCmd.store: run() first (the destination may be one of
+   the sources), then empty and re-create the destination and add the items *)
 Definition zset_store (inter : bool) (g : zagg) (now : Z) (dest : bytes) (keys : list bytes) : M Z :=
+  items <- zset_alg inter g now keys ;;
   zset_delete_key now dest ;;;
   k <- zset_add1 now dest ;;
-  d <- get_db ;;
-  stmt_atomic (zset_insert_all (k_id k)
-                 (zq g (if inter then Some (zlen (dedup keys)) else None) now d keys) 0).
+  zset_add_all (k_id k) items ;;;
+  ret (zlen items).
